@@ -166,6 +166,7 @@ type WorkerOut struct {
 	WallS         float64           `json:"wall_s"`
 	Stats         map[string]int    `json:"stats"`
 	FPs           []string          `json:"fps"`
+	Hists         []string          `json:"hists"`
 	Hashes        []string          `json:"hashes"`
 	StepCaps      int               `json:"step_caps"`
 	Leftover      int               `json:"leftover_runs"`
@@ -261,6 +262,7 @@ type agg struct {
 	simTime       float64
 	stats         map[string]int
 	fps           map[string]bool
+	hists         map[string]bool
 	stepCaps      int
 	leftover      int
 	harness       []string
@@ -288,6 +290,9 @@ func (a *agg) add(w *WorkerOut) {
 	}
 	for _, f := range w.FPs {
 		a.fps[f] = true
+	}
+	for _, f := range w.Hists {
+		a.hists[f] = true
 	}
 	a.stepCaps += w.StepCaps
 	if a.stepCapSample == nil {
@@ -502,7 +507,7 @@ func cmdCheck(args []string) {
 	if W > 16 {
 		W = 16
 	}
-	a := &agg{stats: map[string]int{}, fps: map[string]bool{}, other: map[string]int{}, known: map[string]int{}}
+	a := &agg{stats: map[string]int{}, fps: map[string]bool{}, hists: map[string]bool{}, other: map[string]int{}, known: map[string]int{}}
 	deadline := time.Now().Add(time.Duration(budgetS) * time.Second)
 	maxRuns := 1500
 	minMS := 25000
@@ -750,7 +755,7 @@ func components(engine string) map[string]any {
 
 func assumptions(engine string) []string {
 	base := []string{
-		"the instrumenting rewriter preserves behaviour (checked by running the repository's own tests against the instrumented copy in pass-through mode at setup and in the thorough tier)",
+		"the instrumenting rewriter preserves behaviour (checked by running the repository's own tests against the instrumented copy in pass-through mode in setup_cmd)",
 		"sampling, not enumeration: a clean batch is evidence, not proof",
 		"yields exist only in agent.go, client.go and internal/hmac; the codec runs uninterleaved",
 		"the in-simulation race check sees struct fields and maps of the instrumented files, not individual slice elements",
